@@ -360,13 +360,18 @@ def h_vectors(maxsteps):
                 want.append(e[1])
                 continue
             a, s, b = e[1], e[2], e[3]
+            if not S.symbolic:
+                # the replay's oracle counts the grid points in exact decimal arithmetic (the tokens have three
+                # decimals): a float a + i*s may miss the end point by one ulp, which is not what is decided here
+                import fractions
+                a, s, b = [fractions.Fraction(int(round(float(x) * 1000)), 1000) for x in (a, s, b)]
             up = bool(s > 0)
             i = 0
             while True:
                 v = a + i * s
                 if not bool((v <= b) if up else (v >= b)):
                     break
-                want.append(v)
+                want.append(v if S.symbolic else float(v))
                 i += 1
                 if i > maxsteps + 2:
                     break
